@@ -88,6 +88,35 @@ Proof.
     (split; [reflexivity|]); try apply incl_refl; apply incl_tl, incl_refl.
 Qed.
 
+(* pairX_set_send_buf_len since 7c956d7 (PairModel's waiter loop after nni_lmq_resize): the blocked
+   senders that fit move, in order, from waq into wmq; each one's send completes with success,
+   i.e. the reference on its aio becomes the protocol's *)
+Lemma waiters_frame cap q : forall w w' q' d, admit_waiters cap w q = (w', q', d) -> incl q' q.
+Proof.
+  induction q as [|[a m] r IH]; intros w w' q' d H; cbn [admit_waiters] in H.
+  - inversion H; subst. apply incl_refl.
+  - destruct (lmq_full w cap); [inversion H; subst; apply incl_refl|].
+    destruct (admit_waiters cap (w ++ [m]) r) as [[w1 q1] d1] eqn:E. inversion H; subst.
+    apply incl_tl. eapply IH. exact E.
+Qed.
+Lemma waiters_sum k F s o cap :
+  (forall c a nb m, o <> PSend c a nb m) -> NoDup (map fst (pr_waq s)) ->
+  forall q w w' q' d, incl q (pr_waq s) -> admit_waiters cap w q = (w', q', d) ->
+    wsum (fun m => F (OProto, body m)) w + wsum (fun x => F (OAio (fst x), body (snd x))) q
+    + s_take F (VPair.view k) s o (map (fun a => Complete a E_OK None) d)
+    = wsum (fun m => F (OProto, body m)) w' + wsum (fun x => F (OAio (fst x), body (snd x))) q'
+      + s_del F (VPair.view k) s o (map (fun a => Complete a E_OK None) d).
+Proof.
+  intros Ho Hn. induction q as [|[a m] r IH]; intros w w' q' d Hi H; cbn [admit_waiters] in H.
+  - inversion H; subst. reflexivity.
+  - destruct (lmq_full w cap); [inversion H; subst; reflexivity|].
+    destruct (admit_waiters cap (w ++ [m]) r) as [[w1 q1] d1] eqn:E. inversion H; subst; clear H.
+    pose proof (IH _ _ _ _ (fun x Hx => Hi x (or_intror Hx)) E) as L.
+    assert (K : send_key (VPair.view k) s o a = Some (body m)).
+    { rewrite send_key_other by exact Ho. cbn [VPair.view v_att]. apply att_key_in; [exact Hn|]. apply Hi. left. reflexivity. }
+    cbn [map s_take s_del]. rewrite K. change (E_OK =? 0)%N with true. cbn iota. wnorm. cbn [fst snd]. lia.
+Qed.
+
 (* an aio is pending as a blocked send or as a blocked receive, not both *)
 Definition pair_disj (s : pair) : Prop := forall a, In a (pr_raq s) -> ~ In a (map fst (pr_waq s)).
 Definition pair_inv (s : pair) : Prop := PairProofs.PInv s /\ pair_disj s.
@@ -114,8 +143,8 @@ Qed.
 Lemma incl_filter {A} (f : A -> bool) l : incl (filter f l) l.
 Proof. intros x Hx. apply filter_In in Hx. tauto. Qed.
 
-Lemma pair_disj_step k fx s o s' outs :
-  pair_inv s -> pair_ok s o -> pair_step k fx s o = (s', outs) -> pair_disj s'.
+Lemma pair_disj_step k fx fr s o s' outs :
+  pair_inv s -> pair_ok s o -> pair_step k fx fr s o = (s', outs) -> pair_disj s'.
 Proof.
   intros [HI HD] [Hok Hx] H. pose proof HI as (I1 & I2 & I3 & I4 & I5 & I6 & I7).
   destruct o as [c a nb m|c a nb|a rv|p peer|p|p rv|p rv m|c op|c|c| |now]; cbn [pair_step] in H.
@@ -149,7 +178,10 @@ Proof.
     + destruct (negb (lmq_full (pr_rmq s) (pr_rcap s))); inversion H; subst; intros b [].
     + inversion H; subst. apply (disj_sub s); simp_p; [rewrite ER; apply incl_tl, incl_refl|apply incl_refl|exact HD].
   - destruct op; try (inversion H; subst; exact HD).
-    + destruct (PAIR_BUF_MAX <? N.of_nat n)%N; inversion H; subst; exact HD.
+    + destruct (PAIR_BUF_MAX <? N.of_nat n)%N; [inversion H; subst; exact HD|].
+      destruct fr; [|inversion H; subst; exact HD].
+      destruct (admit_waiters n (firstn n (pr_wmq s)) (pr_waq s)) as [[w1 q1] d1] eqn:E. inversion H; subst.
+      apply (disj_sub s); simp_p; [apply incl_refl|exact (waiters_frame _ _ _ _ _ _ E)|exact HD].
     + destruct (PAIR_BUF_MAX <? N.of_nat n)%N; inversion H; subst; exact HD.
     + destruct k; [inversion H; subst; exact HD|].
       destruct ((n <? PAIR_TTL_MIN) || (PAIR_TTL_MAX <? n)); inversion H; subst; exact HD.
@@ -159,8 +191,8 @@ Proof.
   - inversion H; subst; exact HD.
 Qed.
 
-Lemma pair_law_sum k fx s o s' outs :
-  pair_inv s -> pair_ok s o -> pair_step k fx s o = (s', outs) -> law_sum (VPair.view k) s o s' outs.
+Lemma pair_law_sum k fx fr s o s' outs :
+  pair_inv s -> pair_ok s o -> pair_step k fx fr s o = (s', outs) -> law_sum (VPair.view k) s o s' outs.
 Proof.
   intros [HI HD] [Hok Hx] H F. cbv zeta. pose proof HI as (I1 & I2 & I3 & I4 & I5 & I6 & I7).
   change (v_extra (VPair.view k) s o outs) with (@nil pmsg).
@@ -246,9 +278,17 @@ Proof.
     destruct s as [p0 ttl wmq wcap waq rmq rcap raq rd wr sn rdb wrb]. simp_p.
     destruct op; try (inversion H; subst; cbn; lia).
     + destruct (PAIR_BUF_MAX <? N.of_nat n)%N; [inversion H; subst; cbn; lia|].
-      inversion H; subst; clear H. pair_view.
-      match goal with |- context [s_take F ?V ?s ?o (map Free ?l ++ ?r)] => destruct (s_Free_app V F s o l r) as [A B] end.
-      rewrite A, B. pose proof (wsum_firstn_skipn (fun m => F (OProto, body m)) n wmq). pfin.
+      pose proof (wsum_firstn_skipn (fun m => F (OProto, body m)) n wmq) as FS.
+      destruct fr.
+      * destruct (admit_waiters n (firstn n wmq) waq) as [[w1 q1] d1] eqn:E.
+        pose proof (waiters_sum k F (mkPair p0 ttl wmq wcap waq rmq rcap raq rd wr sn rdb wrb) (PSetOpt c (OSendBuf n)) n
+                      ltac:(intros; discriminate) I6 waq (firstn n wmq) w1 q1 d1 (incl_refl _) E) as L.
+        assert (T0 : o_tx F (map (fun a => Complete a E_OK None) d1) = 0) by apply (o_tx_fail F E_OK).
+        assert (R0 : o_rel F (map (fun a => Complete a E_OK None) d1) = 0) by apply (o_rel_fail F E_OK).
+        inversion H; subst; clear H. pair_view.
+        rewrite !s_take_app, !s_del_app, !s_take_Free, !s_del_Free. pfin.
+      * inversion H; subst; clear H. pair_view.
+        rewrite !s_take_app, !s_del_app, !s_take_Free, !s_del_Free. pfin.
     + destruct (PAIR_BUF_MAX <? N.of_nat n)%N; [inversion H; subst; cbn; lia|].
       inversion H; subst; clear H. pair_view.
       match goal with |- context [s_take F ?V ?s ?o (map Free ?l ++ ?r)] => destruct (s_Free_app V F s o l r) as [A B] end.
@@ -267,12 +307,12 @@ Proof.
   - inversion H; subst. cbn. lia.
 Qed.
 
-Theorem pair_proto_law : forall k fx fs, proto_law (VPair.view k) (pair_step_g k fx fs) pair_inv pair_ok.
+Theorem pair_proto_law : forall k fx fr fs, proto_law (VPair.view k) (pair_step_g k fx fr fs) pair_inv pair_ok.
 Proof.
-  intros k fx fs s o s' outs HI Hok H.
-  rewrite (PairGuardProofs.pair_step_g_contract k fx fs s o (proj1 Hok)) in H.
+  intros k fx fr fs s o s' outs HI Hok H.
+  rewrite (PairGuardProofs.pair_step_g_contract k fx fr fs s o (proj1 Hok)) in H.
   split; [split|split].
-  - exact (proj1 (PairProofs.pair_step_law k fx s o s' outs (proj1 HI) (proj1 Hok) H)).
+  - exact (proj1 (PairProofs.pair_step_law k fx fr s o s' outs (proj1 HI) (proj1 Hok) H)).
   - eapply pair_disj_step; eauto.
   - apply law_sum_eq. eapply pair_law_sum; eauto.
   - apply clones_held_none. reflexivity.
@@ -433,23 +473,24 @@ Proof.
 Qed.
 
 (* ------------------------------ the contracts are satisfiable ------------------------------ *)
-(* option change, buffered send, peer attaches (the message goes out), transport completion,
+(* a send that blocks (buffer depth 0), option change (the buffer grows: with the resize repair the
+   blocked sender moves in), peer attaches (the message goes out), transport completion, a direct send,
    a message arrives and is parked, a receive takes it, the peer goes, the socket closes *)
-Example pair0_ok_nonvacuous : forall fx fs,
-  ops_ok (pair_step_g K0 fx fs) pair_ok pair_init
-    [PSetOpt None (OSendBuf 1); PSend None 1%N false (mkPmsg [] [1%N]); PPipeStart 5%N PROTO_PAIR0;
+Example pair0_ok_nonvacuous : forall fx fr fs,
+  ops_ok (pair_step_g K0 fx fr fs) pair_ok pair_init
+    [PSend None 1%N false (mkPmsg [] [1%N]); PSetOpt None (OSendBuf 1); PPipeStart 5%N PROTO_PAIR0;
      PSendDone 5%N 0%N; PSend None 3%N false (mkPmsg [] [2%N]); PSendDone 5%N 0%N;
      PRecvDone 5%N 0%N (mkPmsg [] [9%N]); PRecv None 2%N false; PRecv None 4%N false; PCancel 4%N E_CANCELED;
      PPipeClose 5%N; PSockClose].
-Proof. intros [|] [|]; vm_compute; intuition (try discriminate; try congruence). Qed.
+Proof. intros [|] [|] [|]; vm_compute; intuition (try discriminate; try congruence). Qed.
 
-Example pair1_ok_nonvacuous : forall fx fs,
-  ops_ok (pair_step_g (K1 false) fx fs) pair_ok pair_init
+Example pair1_ok_nonvacuous : forall fx fr fs,
+  ops_ok (pair_step_g (K1 false) fx fr fs) pair_ok pair_init
     [PSetOpt None (OMaxTtl 4); PSetOpt None (OSendBuf 1); PSend None 1%N false (mkPmsg [] [1%N]);
      PPipeStart 5%N PROTO_PAIR1; PSendDone 5%N 0%N; PSend None 3%N false (mkPmsg [] [2%N]); PSendDone 5%N 0%N;
      PRecvDone 5%N 0%N (mkPmsg [] [0%N; 0%N; 0%N; 1%N; 9%N]); PRecv None 2%N false;
      PRecv None 4%N false; PCancel 4%N E_CANCELED; PPipeClose 5%N; PSockClose].
-Proof. intros [|] [|]; vm_compute; intuition (try discriminate; try congruence). Qed.
+Proof. intros [|] [|] [|]; vm_compute; intuition (try discriminate; try congruence). Qed.
 
 (* option change, two pipes, a send fanned out to both, transport completion, a message arrives,
    a receive takes it, a pipe goes, the socket closes *)
@@ -539,13 +580,13 @@ Definition pair_close_script (s : pair) : list pop :=
   ++ map (fun p => PSendDone p E_CLOSED) (map fst (pr_sending s))
   ++ [PSockClose].
 
-Lemma pair_inv_step k fx fs s o : pair_inv s -> pair_ok s o -> pair_inv (fst (pair_step_g k fx fs s o)).
+Lemma pair_inv_step k fx fr fs s o : pair_inv s -> pair_ok s o -> pair_inv (fst (pair_step_g k fx fr fs s o)).
 Proof.
-  intros Hi Ho. destruct (pair_step_g k fx fs s o) as [s' outs] eqn:E.
-  exact (proj1 (pair_proto_law k fx fs s o s' outs Hi Ho E)).
+  intros Hi Ho. destruct (pair_step_g k fx fr fs s o) as [s' outs] eqn:E.
+  exact (proj1 (pair_proto_law k fx fr fs s o s' outs Hi Ho E)).
 Qed.
-Lemma pair_fail_step k fx fs s p :
-  fst (pair_step_g k fx fs s (PSendDone p E_CLOSED)) =
+Lemma pair_fail_step k fx fr fs s p :
+  fst (pair_step_g k fx fr fs s (PSendDone p E_CLOSED)) =
   mkPair (pr_p s) (pr_ttl s) (pr_wmq s) (pr_wcap s) (pr_waq s) (pr_rmq s) (pr_rcap s) (pr_raq s)
          (pr_rd s) (pr_wr s) (set_snd (pr_sending s) p None) (pr_readable s) (pr_writable s).
 Proof.
@@ -553,12 +594,12 @@ Proof.
   change (negb false) with true. cbn iota. reflexivity.
 Qed.
 
-Theorem pair_close_drains : forall k fx fs s, pair_inv s ->
-  ops_ok (pair_step_g k fx fs) pair_ok s (pair_close_script s) /\
-  drained (VPair.view k) (run (pair_step_g k fx fs) s (pair_close_script s)).
+Theorem pair_close_drains : forall k fx fr fs s, pair_inv s ->
+  ops_ok (pair_step_g k fx fr fs) pair_ok s (pair_close_script s) /\
+  drained (VPair.view k) (run (pair_step_g k fx fr fs) s (pair_close_script s)).
 Proof.
-  intros k fx fs s Hi. set (step := pair_step_g k fx fs).
-  pose proof (pair_inv_step k fx fs) as Hinv. fold step in Hinv.
+  intros k fx fr fs s Hi. set (step := pair_step_g k fx fr fs).
+  pose proof (pair_inv_step k fx fr fs) as Hinv. fold step in Hinv.
   unfold pair_close_script.
   (* 1: the peer's pipe_close *)
   destruct (run_frame step pair_inv pair_ok Hinv pr_sending (map PPipeClose (opt_list (pr_p s)))) with (s := s)
